@@ -245,8 +245,15 @@ Print Assumptions C27_segmenter_recover.
    ahead of video, or a sparse track with long samples, the sample written last before the close ends earlier than
    one written before it. SClose n d = writeDuration(d) + onSegmentComplete(path, d). *)
 
-(* every segment closed by a switch (all of the log before formatFMP4.close) records exactly its true duration,
-   whether or not a write fails later *)
+(* every file of every run records exactly its true duration - also the file closed after a failed write (repaired
+   code, fix b7e594b: a sample refused by formatFMP4Part.write no longer raises endDTS) *)
+Theorem C27_true_duration : forall c evs f,
+  In f (files_of (x_log (run c evs))) -> f_closed f = Some (true_duration f).
+Proof. exact closed_exact. Qed.
+Print Assumptions C27_true_duration.
+
+(* the same at any earlier time (the log before formatFMP4.close: segments closed by a switch) and as a scan of the
+   whole log: every SClose carries (maximum end - start) of its file *)
 Theorem C27_true_duration_at_switch : forall c evs,
   let x := run_from c (init_st c) (gate c evs) in
   dur_scan None (x_log x) = true /\
@@ -254,27 +261,25 @@ Theorem C27_true_duration_at_switch : forall c evs,
 Proof. exact closed_by_switch_exact. Qed.
 Print Assumptions C27_true_duration_at_switch.
 
-(* every file of every run is closed with a duration that is never below its true duration (the media in the file
-   never extends beyond what the header and onSegmentComplete say) *)
-Theorem C27_true_duration_never_short : forall c evs f, In f (files_of (x_log (run c evs))) ->
-  exists d, f_closed f = Some d /\ true_duration f <= d.
-Proof. exact closed_never_short. Qed.
-Print Assumptions C27_true_duration_never_short.
+Theorem C27_true_duration_scan : forall c evs, dur_scan None (x_log (run c evs)) = true.
+Proof. exact closed_scan. Qed.
+Print Assumptions C27_true_duration_scan.
 
-(* when no formatFMP4Track.write call returned an error, every file records exactly its true duration *)
-Theorem C27_true_duration : forall c evs, (forall o, In o (x_outs (run c evs)) -> o <> o_err) ->
-  forall f, In f (files_of (x_log (run c evs))) -> f_closed f = Some (true_duration f).
-Proof. exact closed_exact. Qed.
-Print Assumptions C27_true_duration.
-
-(* ... which cannot be had after a failed write ("reached maximum part size"): formatFMP4Segment.write raises endDTS
-   before formatFMP4Part.write refuses the sample, so the file closed by formatFMP4.close records the end of a
-   sample it does not hold *)
-Theorem C27_true_duration_after_error_refuted :
-  exists c evs f d, In f (files_of (x_log (run c evs))) /\ In o_err (x_outs (run c evs)) /\
+(* REFUTED for the PINNED code (`run_pinned`: formatFMP4Segment.write raised endDTS before formatFMP4Part.write could
+   refuse the sample, "reached maximum part size"): the file closed after the error recorded the end of a sample it
+   does not hold. Witness: max part size 100, samples of 50 and 80 bytes at 25 fps: 80 ms recorded, 40 ms held.
+   Replayed on the real code by the driver family `oversize` (see design_notes/C27.md). *)
+Theorem C27_true_duration_pinned_refuted :
+  exists c evs f d, In f (files_of (x_log (run_pinned c evs))) /\ In o_err (x_outs (run_pinned c evs)) /\
                     f_closed f = Some d /\ true_duration f < d.
-Proof. exact example_after_error. Qed.
-Print Assumptions C27_true_duration_after_error_refuted.
+Proof. exact example_after_error_pinned. Qed.
+Print Assumptions C27_true_duration_pinned_refuted.
+
+(* the same input on the repaired code: the write fails in the same way, the file records the 40 ms it holds *)
+Example C27_true_duration_after_error_example :
+  In o_err (x_outs (run exe_cfg exe_evs)) /\
+  map (fun f => (f_closed f, true_duration f)) (files_of (x_log (run exe_cfg exe_evs))) = [(Some 40000000, 40000000)].
+Proof. exact example_after_error_fixed. Qed.
 
 (* track by track: when the sample ends of each track do not decrease (they do not, except by a nanosecond of
    rounding around zero-length samples at negative timestamps), the media end is the maximum over the tracks of the
